@@ -198,11 +198,26 @@ def run_one(ck, prog):
                     continue
                 if not any(s["k"] == "assign" and s["dst"]["l"] == 0 and not s["dst"].get("p") and s["rv"]["k"] == "agg" and s["rv"].get("variant") == "Ok" for s in b["stmts"]):
                     continue
-                n_ok += 1
                 facts = panics.dominating_facts(ctx, b["id"])
-                is_dir = any(f[0] == "truth" and f[2] is True and mentions(f[1], ctx.prov, lambda z: z[0] == "const" and z[2] and z[2].endswith("Mode::S_IFDIR")) and
+                # an Ok on the mkdir's own success edge is simply "created": the obligation is about success AFTER it failed
+                if any(f[0] == "variant" and f[2] in ("Ok", "Continue") and mentions(f[1], ctx.prov, lambda z: z[0] == "call" and z[3] == fb) for f in facts) and \
+                        not any(f[0] == "variant" and f[2] in ("Err", "Break") and mentions(f[1], ctx.prov, lambda z: z[0] == "call" and z[3] == fb) for f in facts):
+                    continue
+                n_ok += 1
+                is_dir = any(f[0] == "truth" and isinstance(f[1], tuple) and f[1][0] == "call" and (((f[1][1] or "").endswith("::eq") and f[2] is True) or ((f[1][1] or "").endswith("::ne") and f[2] is False)) and
+                             mentions(f[1], ctx.prov, lambda z: z[0] == "const" and z[2] and z[2].endswith("Mode::S_IFDIR")) and
                              mentions(f[1], ctx.prov, lambda z: z[0] == "const" and z[2] and z[2].endswith("Mode::S_IFMT")) and
                              mentions(f[1], ctx.prov, lambda z: z[0] == "field" and z[2] == "st_mode") for f in facts)
+                # ... or the same test through the crate's own accessor Metadata::is_dir (checked below)
+                via_accessor = any(f[0] == "truth" and f[2] is True and isinstance(f[1], tuple) and f[1][0] == "call" and (f[1][1] or "").endswith("fs::Metadata::is_dir") and
+                                   mentions(f[1], ctx.prov, lambda z: z[0] == "call" and (z[1] or "").endswith("stat::stat")) for f in facts)
+                if via_accessor:
+                    md = prog.fns.get("tiny_std::fs::Metadata::is_dir")
+                    mdc = prog.ctx(md) if md else None
+                    rets = list(mdc.ret_expr().values()) if mdc else []
+                    is_dir = len(rets) == 1 and mentions(rets[0], mdc.prov, lambda z: z[0] == "const" and z[2] and z[2].endswith("Mode::S_IFDIR")) and \
+                        mentions(rets[0], mdc.prov, lambda z: z[0] == "const" and z[2] and z[2].endswith("Mode::S_IFMT")) and mentions(rets[0], mdc.prov, lambda z: z[0] == "field" and z[2] == "st_mode") and \
+                        mentions(rets[0], mdc.prov, lambda z: z[0] == "call" and (z[1] or "").endswith("PartialEq::eq"))
                 by_stat = any(cfg.dominates(sb, b["id"]) for sb in stats)
                 ck.ob("C14.4", f"exists-means-directory|ok#{n_ok}", is_dir and by_stat, fn=helper["path"], site=ctx.site(b["id"]),
                       detail="success after the whole-path mkdir failed must be dominated by stat(whole path) and `st_mode & S_IFMT == S_IFDIR`")
@@ -219,9 +234,10 @@ def run_one(ck, prog):
                 for e in c2.cfg.succ[sb]:
                     for f in c2.edge_facts(e):
                         if f[0] == "cmp" and f[1] == "Eq":
-                            for z in (f[2], f[3]):
+                            for z, other in ((f[2], f[3]), (f[3], f[2])):
                                 v = fold(z)
-                                if v is not None and 0 < v < 4096:
+                                # an errno comparison: the other side is the error's `code` (not e.g. a path byte compared with '/')
+                                if v is not None and 0 < v < 4096 and mentions(other, c2.prov, lambda w: w[0] == "field" and w[2] == "code"):
                                     codes.add(v)
                         if f[0] == "truth" and f[2] is True and isinstance(f[1], tuple) and f[1][0] == "call" and (f[1][1] or "").endswith("PartialEq::eq"):
                             for a in f[1][2]:
@@ -255,7 +271,8 @@ def run_one(ck, prog):
 
             def is_dir_const(x):
                 return mentions(x, ctx.prov, lambda z: (z[0] == "agg" and z[2] == "Directory") or (z[0] == "const" and ((len(z) > 4 and z[4] and z[4][0] == dir_idx) or z[1] == dir_idx)))
-            is_dir = any(f[0] == "truth" and f[2] is True and isinstance(f[1], tuple) and f[1][0] == "call" and "PartialEq" in (f[1][1] or "") and (f[1][1] or "").endswith("::eq") and
+            is_dir = any(f[0] == "truth" and isinstance(f[1], tuple) and f[1][0] == "call" and "PartialEq" in (f[1][1] or "") and
+                         (((f[1][1] or "").endswith("::eq") and f[2] is True) or ((f[1][1] or "").endswith("::ne") and f[2] is False)) and
                          any(is_dir_const(x) for x in f[1][2]) and
                          any(mentions(x, ctx.prov, lambda z: z[0] == "call" and (z[1] or "").endswith("file_type")) for x in f[1][2]) for f in facts)
             not_rel = any(f[0] == "truth" and f[2] is False and isinstance(f[1], tuple) and f[1][0] == "call" and (f[1][1] or "").endswith("is_relative_reference") for f in facts)
@@ -399,7 +416,7 @@ def run_one(ck, prog):
         adv = False
         for b in cp["blocks"]:
             for i, s in enumerate(b["stmts"]):
-                if s["k"] == "assign" and not s["dst"].get("p") and ctx.prov.names.get(s["dst"]["l"]) == "offset":
+                if s["k"] == "assign" and not s["dst"].get("p") and ctx.cfg.in_cycle(b["id"]):
                     e = ctx.prov.rvalue(s["rv"], (b["id"], i))
                     if isinstance(e, tuple) and e[0] == "bin" and e[1] == "Add" and mentions(e, ctx.prov, lambda z: z[0] == "call" and (z[1] or "").endswith("copy_file_range")):
                         adv = True
